@@ -5,7 +5,7 @@ EXTENDS Integers, Sequences, FiniteSets, TLC, Json, IOUtils, SequencesExt
 
 Thorough == "TIER" \in DOMAIN IOEnv /\ IOEnv.TIER = "thorough"
 \* shapes: (rows, cols, values)
-Shapes == IF Thorough THEN {<<2, 2, {-1, 0, 1, 2}>>, <<2, 3, {0, 1, -2}>>, <<3, 2, {0, 1, -2}>>, <<1, 4, {0, 1, 2}>>}
+Shapes == IF Thorough THEN {<<2, 2, {-1, 0, 1, 2}>>, <<2, 3, {0, 1}>>, <<3, 2, {0, -2}>>, <<1, 4, {0, 1, 2}>>, <<3, 1, {-1, 0, 1, 2}>>}     \* (all pairs: ~90000 cases)
           ELSE {<<2, 2, {-1, 0, 2}>>, <<2, 3, {0, 1}>>, <<3, 2, {0, -2}>>}
 Flats(n, vals) == [1..n -> vals]
 Case(sh, a, b) == [op |-> "csr_ops", rows |-> sh[1], cols |-> sh[2], a |-> a, b |-> b,
